@@ -81,7 +81,9 @@ pub fn handle(line: &str) -> String {
                     }
                     ("decl", json!({"declared": ns.iter().map(nm).collect::<Vec<_>>(), "dim_reads": dim_reads.into_iter().collect::<Vec<_>>()}))
                 }
-                IfThenElse { cond, .. } => {
+                IfThenElse { cond, true_index, false_index, .. } => {
+                    let true_blocks: BTreeSet<usize> = cfg.get_true_branch(bb).iter().map(|b| b.index()).collect();
+                    let false_blocks: BTreeSet<usize> = cfg.get_false_branch(bb).iter().map(|b| b.index()).collect();
                     let mut region = BTreeSet::new();
                     let mut region_blocks = BTreeSet::new();
                     for b in cfg.get_true_branch(bb).iter().chain(cfg.get_false_branch(bb).iter()) {
@@ -92,6 +94,9 @@ pub fn handle(line: &str) -> String {
                     }
                     ("branch", json!({"const": cond.value().is_some(), "region": region.into_iter().collect::<Vec<_>>(),
                                       "region_blocks": region_blocks.into_iter().collect::<Vec<_>>(),
+                                      "true_index": true_index, "false_index": false_index,
+                                      "true_blocks": true_blocks.into_iter().collect::<Vec<_>>(),
+                                      "false_blocks": false_blocks.into_iter().collect::<Vec<_>>(),
                                       "cond_reads": names(cond.variables_read())}))
                 }
                 Return { .. } => ("ret", json!({})),
